@@ -34,6 +34,10 @@ BINS = ["below", "below=", "above", "above=", "within", "=within", "within=", "=
 AGGS = ["median", "max", "count", "std", "0.9", "sum", "iqr", "range", "min", "variance", "meanabs", "absmean"]
 
 
+# diagrams whose help does not list -r (pithist would take the values as histogram edges: a single edge is not a documented use)
+NO_THRESHOLDS = ("pithist", "against", "change", "meteo", "timeseries", "autocorr", "autocov", "obsfcst", "qq", "scatter", "error")
+
+
 def all_names():
     return list(mrun.ALL) + DIAGRAMS
 
@@ -69,7 +73,7 @@ def variant_args(name, variant, k, axis=None):
             args += ["-q", "0.1,0.9"]
         if name in ("obsfcst", "meteo", "timeseries"):
             args += ["-q", "0.5"]
-        if axis in ("obs", "fcst") and "-r" not in args:
+        if axis in ("obs", "fcst") and "-r" not in args and name not in NO_THRESHOLDS:
             args += ["-r", "0"]
     if variant == "explicit-b":
         args += ["-b", BINS[k % len(BINS)]]
@@ -107,6 +111,23 @@ def items(tier):
         for rep, (shape, first_only) in enumerate([("full2", False), ("full2", True), ("prob2", True), ("prob2", False), ("ens1", False), ("det1", False)]):
             out.append({"shape": shape, "metric": name, "axis": None, "type": "plot", "variant": "one",
                         "k": di + rep, "kind": "text", "first_only": first_only})
+    # every diagram on every -x value (drawn), every metric on every -x value (csv), on two shapes whose dimensions have different
+    # lengths in both directions (more lead times than times and the converse), so that an index meant for one dimension cannot
+    # pass for another
+    for di, name in enumerate(DIAGRAMS):
+        for ai, axis in enumerate(AXES):
+            for shape in ("full2-more-leads-than-times", "full3"):
+                out.append({"shape": shape, "metric": name, "axis": axis, "type": "plot", "variant": "one", "k": di + ai, "kind": "text"})
+    for mi, name in enumerate(mrun.ALL):
+        for ai, axis in enumerate(AXES):
+            out.append({"shape": ["full2-more-leads-than-times", "full3"][(mi + ai) % 2], "metric": name, "axis": axis, "type": "csv", "variant": "one",
+                        "k": mi + ai, "kind": "text"})
+    # every metric and diagram sliced by location / lead time on the dataset with zero-variance slices (a station that always observes
+    # the same value, a location that is forecast perfectly, a file that always forecasts the same value somewhere)
+    for mi, name in enumerate(names):
+        for ai, axis in enumerate(["location", "leadtime", "lat"]):
+            out.append({"shape": "full2-zero-variance", "metric": name, "axis": axis, "type": ["plot", "csv", "map"][(mi + ai) % 3] if ai < 2 else "plot",
+                        "variant": "one", "k": mi + ai, "kind": "text"})
     # field metrics on the conditional axes with every aggregator and -r edges that leave bins empty
     n = 0
     for fld in ("obs", "fcst"):
